@@ -548,3 +548,9 @@ Proof.
   rewrite app_length. replace (length p + length rest - length rest)%nat with (length p) by lia.
   rewrite skipn_app, skipn_all, Nat.sub_diag. reflexivity.
 Qed.
+
+Lemma block_decode_is_brun1' : forall d buf, bwf d ->
+  bres_eq (block_decode (block_fuel buf) d buf) (brun1 d buf).
+Proof.
+  intros d buf Hw. apply block_decode_is_brun1; [exact Hw|]. unfold block_fuel. pose proof (bslack_bounds d). lia.
+Qed.
